@@ -27,7 +27,7 @@ for d in sorted((ROOT / "seeded").iterdir()):
     c = dict(re.findall(r"(\w+)=(\S+)", conf[0])) if conf else {}
     caught = (d / "caught.txt").read_text().splitlines() if (d / "caught.txt").exists() else []
     viol = sorted({re.search(r"replay=(\S+)\.json(\s|$)", l).group(1) for l in caught if l.startswith("VIOLATION") and "replay=" in l})
-    suite_ok = c.get("suite_patched_rc") == "0"
+    suite_ok = str(c.get("suite_patched_rc", "")).startswith("0")
     flaky = (not suite_ok) and any("Timeout waiting for execute reply" in l or "CellTimeoutError" in l for l in (d / "suite_patched.log").read_text().splitlines()) if (d / "suite_patched.log").exists() else False
     meta = {
         "id": d.name,
@@ -46,6 +46,7 @@ for d in sorted((ROOT / "seeded").iterdir()):
             "how": "tools/seed_catch.sh: patch applied to the scratch worktree /tmp/mut, ./check <property> with EMINUS_REPO=/tmp/mut (never applied to /repo for these runs)",
             "tree": caught[0] if caught else "", "runs": [l for l in caught[1:] if l.startswith("check ")], "caught_by": viol,
         },
+        "history": (d / "history.txt").read_text().strip() if (d / "history.txt").exists() else "",
         "kept": bool(c.get("demo_clean_rc") == "0" and c.get("demo_patched_rc") == "1" and (suite_ok or flaky)),
     }
     (d / "meta.json").write_text(json.dumps(meta, indent=1))
